@@ -9,6 +9,8 @@ import (
 	"errors"
 	"fmt"
 	"io"
+	"log"
+	"log/slog"
 	"os"
 	"path/filepath"
 	"sort"
@@ -58,8 +60,15 @@ var (
 	ExtraAt func(point string)
 )
 
+// Quiet silences the server-side request logging.
+func Quiet() {
+	slog.SetDefault(slog.New(slog.NewTextHandler(io.Discard, nil)))
+	log.SetOutput(io.Discard)
+}
+
 // InstallCounters installs the observation-point hook that counts accepted and finished pool jobs.
 func InstallCounters() {
+	Quiet()
 	verif.SetAt(func(p string) {
 		switch p {
 		case "wpool.send.direct", "wpool.lazy.pushed":
